@@ -752,7 +752,7 @@ func moveOutput(state *core.BuildState, target *core.BuildTarget, tmpOutput, rea
 	if fs.PathExists(realOutput) {
 		if oldHash, err := state.PathHasher.Hash(realOutput, false, true, false); err != nil {
 			return true, err
-		} else if bytes.Equal(oldHash, newHash) {
+		} else if bytes.Equal(oldHash, newHash) && sameExecutableBit(tmpOutput, realOutput) {
 			// We already have the same file in the current location. Don't bother moving it.
 			log.Debug("Checking %s vs. %s, hashes match", tmpOutput, realOutput)
 			return false, nil
@@ -781,6 +781,18 @@ func moveOutput(state *core.BuildState, target *core.BuildTarget, tmpOutput, rea
 		}
 	}
 	return true, nil
+}
+
+// sameExecutableBit returns true unless the two paths are both regular files of which exactly one is
+// executable. The hash of a file only covers its contents, so without this check a rule that
+// starts (or stops) making its output executable would keep the old file.
+func sameExecutableBit(a, b string) bool {
+	infoA, errA := os.Lstat(a)
+	infoB, errB := os.Lstat(b)
+	if errA != nil || errB != nil || !infoA.Mode().IsRegular() || !infoB.Mode().IsRegular() {
+		return true
+	}
+	return (infoA.Mode().Perm()&0111 != 0) == (infoB.Mode().Perm()&0111 != 0)
 }
 
 // RemoveOutputs removes all generated outputs for a rule.
